@@ -304,7 +304,12 @@ def groupOp (C : Codec α) (args : List String) : String :=
     | some P =>
       if mode == "c" then (if C.L == .raw then "bad-op" else bytesToHex (C.encCompressed P))
       else bytesToHex (C.encRaw P)
-  | ["dec", sub, hex] => showDec C (sub == "1") (parseBytes hex)
+  | ["dec", sub, hex] =>
+    -- `<pt>><hex>`: the receiver holds `<pt>` before the call; decoding is a function of the bytes only
+    match hex.splitOn ">" with
+    | [h] => showDec C (sub == "1") (parseBytes h)
+    | [pt, h] => if (parsePt C pt).isSome then showDec C (sub == "1") (parseBytes h) else "bad-op"
+    | _ => "bad-op"
   | ["insub", pt] =>
     match parsePt C pt with
     | some (some (x, y)) =>
@@ -324,7 +329,10 @@ def streamOp (E : Env α β) (hasG2 full : Bool) (args : List String) : String :
     match (tys.splitOn ",").mapM (parseTy hasG2 full) with
     | none => "bad-op"
     | some ts =>
-      let (vs, e, n) := decodeSeq E (sub == "1") ts (parseBytes hex)
+      -- a history `hexA>hexB>…`: every stream is decoded into the same destination variables; by value, the
+      -- outcome is that of the last stream alone
+      -- (`decodeHist`, theorem `C07_history_independent`)
+      let (vs, e, n) := decodeSeq E (sub == "1") ts (parseBytes ((hex.splitOn ">").getLast?.getD "-"))
       let out := vs.map (showVal E) ++ (match e with | some e => [e.str] | none => [])
       " ".intercalate (out ++ ["n=" ++ toHex n ++ " c=" ++ toHex n])
   | _ => "bad-op"
